@@ -439,6 +439,29 @@ def postcondition_probes(chk, rng):
                 chk.violation("distribution:%s" % name, "frequencies %s deviate from p=%s beyond the fixed bound" % (ff, p), dict(p=p))
 
 
+def dataset_seed_lists(chk):
+    """generate_dataset_from_prob_dists with a LIST of seeds: the data of schedule j are a function of (p_j, n_j, seed_j) alone -
+    an integer seed names a fresh stream wherever it appears in the list (also twice), a generator object is continued."""
+    from quara.qcircuit import data_generator as dg
+    ps = [np.array([0.5, 0.2, 0.3]), np.array([0.0, 0.6, 0.4]), np.array([0.25, 0.25, 0.5])]
+    ns = [25, 30, 20]
+    for seeds in ([7, 77, 7], [5, 5, 5], [3, 4, 3]):
+        chk.count(1, ("dataset_seed_lists", tuple(seeds)))
+        try:
+            ds = dg.generate_dataset_from_prob_dists([p.copy() for p in ps], list(ns), list(seeds))
+            want = [dg.generate_data_from_prob_dist(p.copy(), n, sd) for p, n, sd in zip(ps, ns, seeds)]
+        except Exception as e:
+            chk.violation("dataset_seed_lists:exception", "%r" % e, dict(seeds=seeds))
+            continue
+        bad_rows = [j for j in range(3) if list(ds[j]) != list(want[j])]
+        if bad_rows:
+            chk.violation("dataset_seed_lists:row", "seeds %s: the data of schedule(s) %s differ from generate_data_from_prob_dist with that schedule's own seed" % (seeds, bad_rows), dict(seeds=seeds))
+    g = np.random.Generator(np.random.MT19937(9))
+    ds = dg.generate_dataset_from_prob_dists([ps[0].copy(), ps[0].copy()], [40, 40], [g, g])
+    if list(ds[0]) == list(ds[1]):
+        chk.violation("dataset_seed_lists:shared_generator", "one generator object given for two schedules produced identical data (it must advance)", dict())
+
+
 def multinomial_sampling(chk):
     """MultinomialDistribution.execute_random_sampling: counts per outcome follow the probability AT THAT POSITION (vectors in no
     particular order, with zeros, with a shape), sum to the number of trials, and an integer seed equals its generator."""
@@ -576,6 +599,7 @@ def run(chk):
     tomography_distributions(chk)
     dataset_sizes(chk)
     multinomial_sampling(chk)
+    dataset_seed_lists(chk)
     chk.assumptions += [
         "outputs are compared through hashes; different stream positions are expected to give different data (draw sizes chosen so that accidental equality is negligible)",
         "statistical agreement is a fixed-bound sanity check outside the TLA+ argument",
